@@ -27,14 +27,15 @@ ap.add_argument("--demo-race", action="store_true")
 ap.add_argument("--tier", default="quick")
 ap.add_argument("--skip-suite", action="store_true")
 ap.add_argument("--runs", type=int)
+ap.add_argument("--base", default="HEAD", help="revision of /repo the patch was written against")
 a = ap.parse_args()
 d = os.path.abspath(a.dir)
 name = os.path.basename(d)
 wt = tempfile.mkdtemp(prefix="wt_eval_")
 os.rmdir(wt)
-res = {"name": name, "at": time.strftime("%Y-%m-%d %H:%M:%S")}
+res = {"name": name, "at": time.strftime("%Y-%m-%d %H:%M:%S"), "base": a.base}
 try:
-    rc, out = sh(["git", "-C", "/repo", "worktree", "add", "-q", "--detach", wt, "HEAD"])
+    rc, out = sh(["git", "-C", "/repo", "worktree", "add", "-q", "--detach", wt, a.base])
     assert rc == 0, out
     if a.demo_file:
         # demonstration on the unchanged tree first
